@@ -202,6 +202,7 @@ func predict(c Case, cl Call) (callee string, negExpected bool, nCandidates int)
 		f       Fn
 		refs    int
 		generic bool
+		ngen    int // number of parameters whose type contains a type parameter
 	}
 	var ok []cand
 	for _, f := range c.Fns {
@@ -280,7 +281,13 @@ func predict(c Case, cl Call) (callee string, negExpected bool, nCandidates int)
 		}
 		nCandidates++
 		if typed {
-			ok = append(ok, cand{f, refs, f.generic()})
+			ng := 0
+			for _, p := range f.Params {
+				if isGeneric(p.Type) {
+					ng++
+				}
+			}
+			ok = append(ok, cand{f, refs, f.generic(), ng})
 		}
 	}
 	if len(ok) == 0 {
@@ -295,6 +302,15 @@ func predict(c Case, cl Call) (callee string, negExpected bool, nCandidates int)
 	})
 	if len(ok) > 1 && ok[0].refs == ok[1].refs && ok[0].generic == ok[1].generic {
 		return "?", false, nCandidates
+	}
+	// the statement orders non-generic before generic and then by Referenz parameters; it does not say how two
+	// generic declarations with different numbers of generic parameters rank against each other
+	if ok[0].generic {
+		for _, o := range ok[1:] {
+			if o.generic && o.ngen != ok[0].ngen {
+				return "?", false, nCandidates
+			}
+		}
 	}
 	return ok[0].f.Name, cl.Negated, nCandidates
 }
